@@ -674,7 +674,8 @@ fn obs_of(o: Outcome) -> Obs {
             return true;
         }
         let digits = t.iter().take_while(|b| b.is_ascii_digit()).count();
-        digits > 0 && t[digits..].starts_with(b" |")
+        // (` 9 | …`, and `10| …` when the line number fills the gutter of a two-line span)
+        digits > 0 && t[digits..].iter().copied().skip_while(|&b| b == b' ').next() == Some(b'|')
     }
     let mut echo = vec![];
     let mut err = false;
